@@ -1444,6 +1444,9 @@ func (fr *Frame) frameCond(comp string, v string) (string, bool) {
 	if strings.HasPrefix(comp, "GG_") && fr.e.g.specs.Frameless[comp[3:]] {
 		return "", false
 	}
+	if owner, ok := fr.repComps()[comp]; ok && owner != fr.pkgName() {
+		return "", false
+	}
 	if fr.targets == nil {
 		fr.targets = map[string][]modTarget{}
 		mods := append([]string{}, fr.spec.Modifies...)
